@@ -7,6 +7,8 @@
 //   - the guards of createFunTokenFromCoin / createFunTokenFromERC20 in order and by which index, and which VALUE of the
 //     denom string (as given by the message / rewritten since) the guard, the metadata lookup and the insert of
 //     createFunTokenFromCoin use;
+//   - the re-entry guards: is the context handed to precompiles marked, and do ConvertCoinToEvm / CreateFunToken refuse on a
+//     marked context before anything else;
 //   - for every NibiruBankKeeper method wrapped in ForceGasInvariant, which accounts are re-synced into the StateDB.
 //
 // The walk is a small symbolic execution in source order: IsMadeFromCoin tests are decided for the birth being
@@ -1139,6 +1141,183 @@ func createDenoms(fd *ast.FuncDecl) string {
 	return out(guard, meta, ins)
 }
 
+// ---------------------------------------------------------------- re-entry guards
+
+// ctxMark: the statedb package marks the context handed to precompiles and offers a reader of that mark.
+// Returns the reader's name ("" if there is none) and whether CacheCtxForPrecompile (or a helper it calls) sets the mark
+// the reader reads (same key type, value true).
+func ctxMark(sf map[string]*ast.FuncDecl) (reader string, marked bool) {
+	keyOfValueCall := func(n ast.Node, method string) string {
+		c, ok := n.(*ast.CallExpr)
+		if !ok {
+			return ""
+		}
+		sel, ok := c.Fun.(*ast.SelectorExpr)
+		if !ok || sel.Sel.Name != method || len(c.Args) == 0 {
+			return ""
+		}
+		if method == "WithValue" && (len(c.Args) != 2 || Nospace(c.Args[1]) != "true") {
+			return ""
+		}
+		return Nospace(c.Args[0])
+	}
+	key := ""
+	var names []string
+	for n := range sf {
+		names = append(names, n)
+	}
+	sort.Strings(names)
+	for _, n := range names {
+		fd := sf[n]
+		if fd.Body == nil || fd.Recv != nil || fd.Type.Results == nil || len(fd.Type.Results.List) != 1 || Nospace(fd.Type.Results.List[0].Type) != "bool" {
+			continue
+		}
+		ast.Inspect(fd.Body, func(x ast.Node) bool {
+			if k := keyOfValueCall(x, "Value"); k != "" && reader == "" {
+				reader, key = n, k
+			}
+			return true
+		})
+	}
+	if reader == "" {
+		return "", false
+	}
+	var sets func(name string, d int) bool
+	sets = func(name string, d int) bool {
+		fd, ok := sf[name]
+		if !ok || fd.Body == nil || d > 3 {
+			return false
+		}
+		found := false
+		ast.Inspect(fd.Body, func(x ast.Node) bool {
+			if keyOfValueCall(x, "WithValue") == key {
+				found = true
+			}
+			if c, ok := x.(*ast.CallExpr); ok && !found {
+				ch := chain(c.Fun)
+				if last := ch[len(ch)-1]; last != name && sets(last, d+1) {
+					found = true
+				}
+			}
+			return true
+		})
+		return found
+	}
+	return reader, sets("CacheCtxForPrecompile", 0)
+}
+
+// refusesOnPrecompileCtx: does the message handler return an error when the context carries the precompile mark, BEFORE it
+// calls anything that moves funds, reads the registry or starts a state transition?  The test may be inline
+// (`if statedb.<reader>(ctx) { return …, err }`) or in a same-package helper whose error is handed on
+// (`if err := k.h(ctx, msg); err != nil { return nil, err }`, also as assignment + if).
+func refusesOnPrecompileCtx(fd *ast.FuncDecl, funcs map[string]*ast.FuncDecl, reader string) bool {
+	if fd == nil || fd.Body == nil || reader == "" {
+		return false
+	}
+	mentionsReader := func(n ast.Node) bool {
+		for _, id := range idents(n) {
+			if id == reader {
+				return true
+			}
+		}
+		return false
+	}
+	returnsErr := func(b *ast.BlockStmt) bool {
+		if !endsInReturn(b) {
+			return false
+		}
+		r := b.List[len(b.List)-1].(*ast.ReturnStmt)
+		return len(r.Results) > 0 && Nospace(r.Results[len(r.Results)-1]) != "nil"
+	}
+	var helperRefuses func(name string, d int) bool
+	helperRefuses = func(name string, d int) bool {
+		h, ok := funcs[name]
+		if !ok || h.Body == nil || d > 2 {
+			return false
+		}
+		for _, st := range h.Body.List {
+			switch x := st.(type) {
+			case *ast.IfStmt:
+				if mentionsReader(x.Cond) && !strings.HasPrefix(Nospace(x.Cond), "!") && returnsErr(x.Body) {
+					return true
+				}
+			case *ast.ReturnStmt:
+				for _, r := range x.Results {
+					if c, ok := r.(*ast.CallExpr); ok {
+						ch := chain(c.Fun)
+						if helperRefuses(ch[len(ch)-1], d+1) {
+							return true
+						}
+					}
+				}
+			}
+		}
+		return false
+	}
+	callRefuses := func(e ast.Node) bool {
+		ok := false
+		ast.Inspect(e, func(n ast.Node) bool {
+			if c, isCall := n.(*ast.CallExpr); isCall {
+				ch := chain(c.Fun)
+				if helperRefuses(ch[len(ch)-1], 0) {
+					ok = true
+				}
+			}
+			return true
+		})
+		return ok
+	}
+	effectful := func(n ast.Node) bool {
+		bad := false
+		ast.Inspect(n, func(x ast.Node) bool {
+			if c, ok := x.(*ast.CallExpr); ok {
+				ch := chain(c.Fun)
+				last := ch[len(ch)-1]
+				switch {
+				case strings.HasPrefix(last, "deduct"), strings.HasPrefix(last, "createFunToken"), strings.HasPrefix(last, "convertCoinToEvm"),
+					strings.HasPrefix(last, "SendCoins"), strings.HasPrefix(last, "MintCoins"), strings.HasPrefix(last, "BurnCoins"),
+					last == "Collect", last == "ApplyEvmMsg", last == "NewStateDB", last == "TxStateDB", last == "SafeInsert":
+					bad = true
+				}
+			}
+			return true
+		})
+		return bad
+	}
+	pendingErrFromRefusing := false
+	for _, st := range fd.Body.List {
+		switch x := st.(type) {
+		case *ast.IfStmt:
+			if mentionsReader(x.Cond) && !strings.HasPrefix(Nospace(x.Cond), "!") && returnsErr(x.Body) {
+				return true
+			}
+			if x.Init != nil && callRefuses(x.Init) && strings.Contains(Nospace(x.Cond), "!=nil") && returnsErr(x.Body) {
+				return true
+			}
+			if pendingErrFromRefusing && strings.Contains(Nospace(x.Cond), "!=nil") && returnsErr(x.Body) {
+				return true
+			}
+		case *ast.AssignStmt:
+			if callRefuses(x) {
+				pendingErrFromRefusing = true
+				continue
+			}
+		}
+		pendingErrFromRefusing = false
+		if effectful(st) {
+			return false
+		}
+	}
+	return false
+}
+
+func reentryGuards(repo string, kf map[string]*ast.FuncDecl) string {
+	sf := Funcs(ParseDir(repo + "/x/evm/statedb"))
+	reader, marked := ctxMark(sf)
+	return fmt.Sprintf("{| rg_ctx_marked := %s; rg_convert_refused := %s; rg_create_refused := %s |}",
+		CoqBool(marked), CoqBool(refusesOnPrecompileCtx(kf["ConvertCoinToEvm"], kf, reader)), CoqBool(refusesOnPrecompileCtx(kf["CreateFunToken"], kf, reader)))
+}
+
 // ---------------------------------------------------------------- NibiruBankKeeper sync table
 
 // gasCoinTest returns name when name is the package's "do these coins contain the EVM gas coin" test — recognised by
@@ -1508,6 +1687,8 @@ func main() {
 	fmt.Printf("Definition current_create_erc20 : list cguard := %s.\n\n", createGuards(kf["createFunTokenFromERC20"]))
 	fmt.Println("(** createFunTokenFromCoin: which VALUE of the denom string (as given / rewritten) the index guard, the metadata lookup and the insert use *)")
 	fmt.Printf("Definition current_create_coin_denoms : create_denoms :=\n  %s.\n\n", createDenoms(kf["createFunTokenFromCoin"]))
+	fmt.Println("(** re-entry: the context handed to precompiles is marked, and ConvertCoinToEvm / CreateFunToken refuse on a marked context before touching anything *)")
+	fmt.Printf("Definition current_reentry_guards : reentry_guards :=\n  %s.\n\n", reentryGuards(repo, kf))
 	fmt.Println("(** outside the bridge: the EVM module account is bank-blocked, and the tokenfactory admin paths honour that *)")
 	fmt.Printf("Definition current_escrow_guards : escrow_guards :=\n  %s.\n\n", escrowGuards(repo))
 	fmt.Println("(** NibiruBankKeeper: accounts re-synced into the StateDB after each wrapped bank method *)")
